@@ -166,8 +166,67 @@ def check_fn(case, rec):
         rec.nontrivial = len(objs) > 2
 
 
+# ---- shapes and loop lengths known only at run time -----------------------------------------------------------------------------------------
+
+@st.composite
+def runtime_cases(draw, tier):
+    return dict(op=draw(st.sampled_from(['multiply', 'add', 'einsum', 'arctan2', 'less', 'subtract', 'loop_sum', 'loop_concatenate', 'nested-loop-length'])),
+                n=draw(st.integers(0, 4)), m=draw(st.integers(0, 4)), simplify=draw(st.booleans()), optimize=draw(st.booleans()))
+
+
+def check_runtime(case, rec):
+    """arrays whose lengths are given by arguments: the announced shape is the shape that is delivered - operands whose run-time lengths disagree
+    must be refused, not broadcast - and a loop whose length is an argument announces that argument"""
+    from nutils import evaluable as ev
+    n, m = case['n'], case['m']
+    N = ev.Maximum(ev.Argument('n', (), int), ev.constant(0)); M = ev.Maximum(ev.Argument('m', (), int), ev.constant(0))
+    op = case['op']
+    args = dict(n=numpy.array(n), m=numpy.array(m))
+    kw = dict(_simplify=case['simplify'], _optimize=case['optimize'])
+    if op in ('loop_sum', 'loop_concatenate', 'nested-loop-length'):
+        i = ev.loop_index('i', N)
+        fi = ev.sin(ev.astype(i, float))
+        if op == 'loop_sum': f = ev.loop_sum(fi, i); want = numpy.sin(numpy.arange(n, dtype=float)).sum()
+        elif op == 'loop_concatenate': f = ev.loop_concatenate(ev.InsertAxis(fi, ev.constant(2)), i); want = numpy.repeat(numpy.sin(numpy.arange(n, dtype=float)), 2)
+        else:
+            j = ev.loop_index('j', i + ev.constant(1))      # the inner length is the outer index + 1
+            f = ev.loop_sum(ev.loop_sum(ev.astype(j, float) + 1., j), i); want = numpy.float64(sum(sum(jj + 1. for jj in range(ii + 1)) for ii in range(n)))
+        announced = {a.name for a in f.arguments if isinstance(a, ev.Argument)}
+        if 'n' not in announced:
+            raise Violation('unannounced-argument-needed', f'{op} over an index of length max(n,0): announced arguments {sorted(announced)} lack n', where='runtime:arguments:' + op)
+        if f.isconstant:
+            raise Violation('unannounced-argument-needed', f'{op} whose length is an argument claims to be constant', where='runtime:isconstant:' + op)
+        try:
+            got = numpy.asarray(ev.eval_once(f, arguments=dict(n=numpy.array(n)), **kw))
+        except Exception as e:
+            raise Violation('eval-raised', f'{op} n={n}: {type(e).__name__}: {str(e)[:200]}', where='runtime:raised:' + op)
+        if got.shape != numpy.shape(want) or not numpy.allclose(got, want, rtol=1e-13, atol=1e-13):
+            raise Violation('value', f'{op} n={n}: {got.tolist()} != {numpy.asarray(want).tolist()}', where='runtime:value:' + op)
+        rec.nontrivial = n >= 2
+        rec.label('runtime:' + op); return
+    x = ev.Argument('x', (N,), float); y = ev.Argument('y', (M,), float)
+    f = {'multiply': lambda: ev.multiply(x, y), 'add': lambda: ev.add(x, y), 'subtract': lambda: ev.subtract(x, y), 'arctan2': lambda: ev.ArcTan2(x, y), 'less': lambda: ev.Less(x, y),
+         'einsum': lambda: ev.einsum('i,i->i', x, y)}[op]()
+    args.update(x=numpy.arange(n, dtype=float) + 1, y=numpy.arange(m, dtype=float) + 2)
+    try:
+        got, length = ev.eval_once((f, f.shape[0]), arguments=args, **kw)
+    except Exception as e:
+        if n != m:
+            rec.label('runtime:mismatch-refused:' + op); rec.nontrivial = True
+            return
+        raise Violation('eval-raised', f'{op} with equal run-time lengths {n}: {type(e).__name__}: {str(e)[:200]}', where='runtime:raised:' + op)
+    got = numpy.asarray(got)
+    if got.shape != (int(length),):
+        raise Violation('announced-shape', f'{op} of operands of run-time lengths {n} and {m}: delivered shape {got.shape}, announced length {int(length)}', where='runtime:shape:' + op)
+    if n != m:
+        raise Violation('mismatch-accepted', f'{op} of operands of run-time lengths {n} and {m} was evaluated (shape {got.shape})', where='runtime:accepted:' + op)
+    rec.nontrivial = n == m and n > 0
+    rec.label('runtime:equal-lengths:' + op)
+
+
 SUBS = [Sub('nodes', strategy, check, {'quick': 3000, 'thorough': 30000}, weight=4, timeout=25),
-        Sub('function', fn_cases, check_fn, {'quick': 300, 'thorough': 5000}, weight=1, timeout=60)]
+        Sub('function', fn_cases, check_fn, {'quick': 300, 'thorough': 5000}, weight=1, timeout=60),
+        Sub('runtime', runtime_cases, check_runtime, {'quick': 200, 'thorough': 3000}, weight=1, timeout=60)]
 
 def _upstream_c01(case, v):
     prog = case.get('prog', case)
